@@ -104,6 +104,7 @@ def case_strategy(draw, tier="quick"):
             "declare": draw(st.booleans()),
             "api": draw(st.sampled_from(["writeline", "writelines", "with", "tuple", "strings", "chunks", "chunks"])),
             "chunks": draw(st.lists(st.sampled_from([0, 1, 1, 2, 3, 7]), min_size=1, max_size=6)),
+            "reassign": draw(st.sampled_from([None, None, None, "triclinic-first", "vector-first"])),
             "read_api": draw(st.sampled_from(["path", "path", "fileobj", "open_coordinate_file", "iterate"])),
             "prior": draw(st.one_of(st.none(), st.fixed_dictionaries({
                 "format": st.sampled_from([None, 1, 2, 4, 6]), "vel": st.booleans(), "n": st.integers(1, 40),
@@ -114,6 +115,12 @@ def write_with_library(case, path):
     recs = case["records"]
     f = GroFile(path, "w") if case["api"] != "with" else open_coordinate_file(path, "w")
     try:
+        if case.get("reassign") and case["box"] is not None and case["title"] is not None:
+            # header attributes set once with other values first (a template / a previous frame), then with the real ones
+            f.comment = "provisional title"
+            f.box_matrix = np.array([[7.5, 0.5, -0.25], [1.0, 8.0, 0.75], [2.0, -3.0, 9.0]])
+            if case["reassign"] == "vector-first":
+                f.box_matrix = np.array([3.0, 4.0, 5.0])
         if case["title"] is not None:
             f.comment = case["title"]
         if case["box"] is not None:
